@@ -217,6 +217,248 @@ theorem tameRun_sound (f : Nat) : ∀ (env : List Entry) (l out : List PTok), (e
               · cases h
       · exact keepCase h
 
+/-! ## `tameRun` is complete: every tame derivation is found, given enough fuel -/
+
+theorem keptB_of_kept (env : List Entry) (t : PTok) (rest : List PTok) (h : Kept env t rest) :
+    keptB env t rest = true := by
+  unfold keptB
+  cases htk : t.tok with
+  | concat => exact absurd htk h.1
+  | id n =>
+    simp only [List.all_eq_true, Bool.or_eq_true, bne_iff_ne, ne_eq, Bool.and_eq_true, Bool.not_eq_true']
+    intro e he
+    by_cases hn : e.m.name = n
+    · rcases h.2 n htk e he hn with hd | ⟨hf, hs⟩
+      · exact Or.inl (Or.inr hd)
+      · exact Or.inr ⟨hf, hs⟩
+    · exact Or.inl (Or.inl hn)
+  | _ => rfl
+
+theorem onlyDisabledB_of (env : List Entry) (l : List PTok) (h : OnlyDisabled env l) : onlyDisabledB env l = true := by
+  unfold onlyDisabledB
+  rw [List.all_eq_true]
+  intro t ht
+  cases htk : t.tok with
+  | id n =>
+    simp only [List.all_eq_true, Bool.or_eq_true, bne_iff_ne, ne_eq]
+    intro e he
+    by_cases hn : e.m.name = n
+    · exact Or.inr (h t ht n htk e he hn)
+    · exact Or.inl hn
+  | _ => rfl
+
+theorem lastTok_some (R : List PTok) (k : Tok) (h : lastTok R = some k) :
+    ∃ R0 b R1, R = R0 ++ ⟨k, b⟩ :: R1 ∧ ∀ t ∈ R1, t.tok.isWhitespace = true := by
+  induction R with
+  | nil => simp [lastTok] at h
+  | cons t r ih =>
+    unfold lastTok at h
+    cases hr : lastTok r with
+    | some k' =>
+      simp only [hr, Option.some.injEq] at h
+      subst h
+      obtain ⟨R0, b, R1, hR, hws⟩ := ih hr
+      exact ⟨t :: R0, b, R1, by simp [hR], hws⟩
+    | none =>
+      simp only [hr] at h
+      split at h
+      · cases h
+      · rename_i hw
+        simp only [Option.some.injEq] at h
+        refine ⟨[], t.located, r, by subst h; rfl, ?_⟩
+        -- `lastTok r = none`: everything in `r` is white space
+        have : ∀ (l : List PTok), lastTok l = none → ∀ x ∈ l, x.tok.isWhitespace = true := by
+          intro l
+          induction l with
+          | nil => intro _ x hx; cases hx
+          | cons y ys ihy =>
+            intro hl x hx
+            unfold lastTok at hl
+            cases hy : lastTok ys with
+            | some _ => simp [hy] at hl
+            | none =>
+              simp only [hy] at hl
+              split at hl
+              · rename_i hwy
+                rcases List.mem_cons.mp hx with rfl | hx
+                · exact hwy
+                · exact ihy hy x hx
+              · cases hl
+        exact this r hr
+
+theorem noFireFrom_of (g : String) (mi : Nat) (env : List Entry) (k : Nat)
+    (h : ∀ j e, env[j]? = some e → e.m.name = g → e.m.isFunction = true → e.disabled = true ∨ k + j = mi) :
+    noFireFrom g mi env k = true := by
+  induction env generalizing k with
+  | nil => rfl
+  | cons x xs ih =>
+    simp only [noFireFrom, Bool.and_eq_true, Bool.or_eq_true, bne_iff_ne, ne_eq, Bool.not_eq_true', beq_iff_eq]
+    constructor
+    · by_cases hn : x.m.name = g
+      · by_cases hf : x.m.isFunction = true
+        · rcases h 0 x (by simp) hn hf with hd | hk
+          · exact Or.inl (Or.inr hd)
+          · exact Or.inr (by omega)
+        · exact Or.inl (Or.inl (Or.inr (by simpa using hf)))
+      · exact Or.inl (Or.inl (Or.inl hn))
+    · apply ih (k + 1)
+      intro j e hj hn hf
+      rcases h (j + 1) e (by simpa using hj) hn hf with hd | hk
+      · exact Or.inl hd
+      · exact Or.inr (by omega)
+
+theorem noFireB_of (env : List Entry) (mi : Nat) (R rest : List PTok) (h : NoFire env mi R rest) :
+    noFireB env mi R rest = true := by
+  unfold noFireB
+  by_cases hsp : startsParen rest = true
+  · simp only [hsp, if_true]
+    cases hl : lastTok R with
+    | none => rfl
+    | some k =>
+      cases k with
+      | id g =>
+        obtain ⟨R0, b, R1, hR, hws⟩ := lastTok_some R _ hl
+        simp only
+        apply noFireFrom_of
+        intro j e hj hn hf
+        simpa using h R0 g b R1 hR hws hsp j e hj hn hf
+      | _ => rfl
+  · simp [hsp]
+
+theorem findName_of_uniq (n : String) (env : List Entry) (k mi : Nat) (e : Entry) (hget : env[mi]? = some e)
+    (hname : e.m.name = n) (huniq : ∀ j e', env[j]? = some e' → e'.m.name = n → j = mi) :
+    findName n env k = some (k + mi, e) := by
+  induction env generalizing k mi with
+  | nil => simp at hget
+  | cons x xs ih =>
+    unfold findName
+    cases mi with
+    | zero =>
+      simp only [List.getElem?_cons_zero, Option.some.injEq] at hget
+      subst hget
+      simp [hname]
+    | succ m =>
+      have hx : x.m.name ≠ n := by
+        intro hh
+        have := huniq 0 x (by simp) hh
+        omega
+      simp only [hx, if_false]
+      have := ih (k + 1) m (by simpa using hget) (fun j e' hj hn => by
+        have := huniq (j + 1) e' (by simpa using hj) hn
+        omega)
+      rw [this]
+      congr 2; omega
+
+theorem selectIdx_of_selects (env : List Entry) (n : String) (mi : Nat) (e : Entry) (h : Selects env n mi e) :
+    selectIdx env n = some (mi, e) := by
+  unfold selectIdx
+  rw [findName_of_uniq n env 0 mi e h.get h.name h.uniq]
+  simp [h.enabled]
+
+theorem mapO_of_pointwise {α β : Type} (f : α → Option β) (l : List α) (r : List β) (hlen : r.length = l.length)
+    (h : ∀ (i : Nat) a b, l[i]? = some a → r[i]? = some b → f a = some b) : mapO f l = some r := by
+  induction l generalizing r with
+  | nil =>
+    cases r with
+    | nil => rfl
+    | cons _ _ => simp at hlen
+  | cons a as ih =>
+    cases r with
+    | nil => simp at hlen
+    | cons b bs =>
+      have h0 := h 0 a b (by simp) (by simp)
+      have := ih bs (by simpa using hlen) (fun i x y hx hy => h (i + 1) x y (by simpa using hx) (by simpa using hy))
+      simp only [mapO, h0, this]
+
+theorem exists_fuel_bound_tame (env : List Entry) (args args' : List (List PTok))
+    (h : ∀ (i : Nat) (a a' : List PTok), args[i]? = some a → args'[i]? = some a' →
+      ∃ f, ∀ f', f ≤ f' → tameRun f' env a = some a') :
+    ∃ F, ∀ (i : Nat) (a a' : List PTok), args[i]? = some a → args'[i]? = some a' →
+      ∀ f', F ≤ f' → tameRun f' env a = some a' := by
+  induction args generalizing args' with
+  | nil => exact ⟨0, fun i a a' ha => by simp at ha⟩
+  | cons a0 as ih =>
+    cases args' with
+    | nil => exact ⟨0, fun i a a' _ ha' => by simp at ha'⟩
+    | cons e0 es =>
+      obtain ⟨f0, hf0⟩ := h 0 a0 e0 (by simp) (by simp)
+      obtain ⟨F, hF⟩ := ih es (fun i a a' ha ha' => h (i + 1) a a' (by simpa using ha) (by simpa using ha'))
+      refine ⟨max f0 F, ?_⟩
+      intro i a a' ha ha' f' hf'
+      cases i with
+      | zero =>
+        simp at ha ha'
+        subst ha; subst ha'
+        exact hf0 f' (by omega)
+      | succ j => exact hF j a a' (by simpa using ha) (by simpa using ha') f' (by omega)
+
+/-- **`tameRun` is complete**: it finds every tame derivation, given enough fuel -- so the class of
+`expand_refines_spec` is exactly what `tameRun` accepts. -/
+theorem tameRun_complete {env : List Entry} {l out : List PTok} (h : Tame env l out) :
+    ∃ f, ∀ f', f ≤ f' → tameRun f' env l = some out := by
+  induction h with
+  | nil env =>
+    refine ⟨1, fun f' hf' => ?_⟩
+    obtain ⟨g, rfl⟩ : ∃ g, f' = g + 1 := ⟨f' - 1, by omega⟩
+    rfl
+  | keep env t rest out hk _ ih =>
+    obtain ⟨f0, hf0⟩ := ih
+    refine ⟨f0 + 1, fun f' hf' => ?_⟩
+    obtain ⟨g, rfl⟩ : ∃ g, f' = g + 1 := ⟨f' - 1, by omega⟩
+    have hkb := keptB_of_kept env t rest hk
+    have hrest := hf0 g (by omega)
+    unfold tameRun
+    simp only
+    cases htk : t.tok with
+    | id n =>
+      simp only
+      cases hsel : selectIdx env n with
+      | none => simp only [hkb, if_true, hrest]
+      | some p =>
+        obtain ⟨mi, e⟩ := p
+        simp only
+        cases hra : readArgs e.m rest with
+        | error er => simp only [hkb, if_true, hrest]
+        | ok ra =>
+          exfalso
+          obtain ⟨rest', args⟩ := ra
+          -- an enabled entry whose arguments can be read is not kept
+          unfold selectIdx at hsel
+          split at hsel
+          · rename_i mi' e' hf
+            split at hsel
+            · cases hsel
+            · rename_i hd
+              simp only [Option.some.injEq, Prod.mk.injEq] at hsel
+              obtain ⟨rfl, rfl⟩ := hsel
+              obtain ⟨_, hget, hname⟩ := findName_spec n env 0 mi' e' hf
+              simp only [Nat.sub_zero] at hget
+              rcases hk.2 n htk e' (List.mem_of_getElem? hget) hname with hdis | ⟨hfn, hsp⟩
+              · exact hd hdis
+              · have hs := RsslVerif.Lemmas.MacroTerm.readArgs_spec e'.m rest rest' args hra
+                simp only [hfn, if_true] at hs
+                obtain ⟨b, tail, htrim, _, _⟩ := hs
+                rw [startsParen_of_trimStart rest b tail htrim] at hsp
+                cases hsp
+          · cases hsel
+    | _ => simp only [hkb, if_true, hrest]
+  | invoke env n b rest mi e rest' args args' body' R out hsel hra hlen _ hod hsub _ hnf _ ihargs ihbody ihrest =>
+    obtain ⟨F, hF⟩ := exists_fuel_bound_tame env args args' ihargs
+    obtain ⟨f1, hf1⟩ := ihbody
+    obtain ⟨f2, hf2⟩ := ihrest
+    refine ⟨max F (max f1 f2) + 1, fun f' hf' => ?_⟩
+    obtain ⟨g, rfl⟩ : ∃ g, f' = g + 1 := ⟨f' - 1, by omega⟩
+    have hargs : mapO (tameRun g env) args = some args' :=
+      mapO_of_pointwise _ _ _ hlen (fun i a a' ha ha' => hF i a a' ha ha' g (by omega))
+    have hodB : args'.all (onlyDisabledB env) = true := by
+      rw [List.all_eq_true]
+      intro a' ha'
+      exact onlyDisabledB_of env a' (hod a' ha')
+    unfold tameRun
+    simp only [selectIdx_of_selects env n mi e hsel, hra, hargs, hodB, if_true, hsub, hf1 g (by omega),
+      noFireB_of env mi R rest' hnf, hf2 g (by omega)]
+
+
 /-! ## object-like macros: every expansion is tame -/
 
 theorem findName_none (n : String) (env : List Entry) (i : Nat) (h : findName n env i = none) :
